@@ -761,6 +761,170 @@ impl Check for LiveSpread {
 }
 
 // ---------------------------------------------------------------------------------------------
+// live swaps with spread limits on the three-asset pool
+// ---------------------------------------------------------------------------------------------
+
+#[derive(Clone, Debug, Serialize, Deserialize)]
+pub struct LiveSwap3 {
+    pub user: u8,
+    pub from: u8,
+    pub to: u8,
+    pub amt: Amt,
+    pub max_spread_atomics: Option<Uint128>,
+    pub belief_k: Option<u16>,
+}
+
+#[derive(Clone, Debug, Serialize, Deserialize)]
+pub struct LiveCase3 {
+    pub cw20: [bool; 3],
+    pub amp: u64,
+    pub fees: [Uint128; 3],
+    pub init: [Uint128; 3],
+    pub swaps: Vec<LiveSwap3>,
+}
+
+pub struct LiveSpreadTrio;
+
+impl Check for LiveSpreadTrio {
+    type Case = LiveCase3;
+    fn name(&self) -> &'static str {
+        "live_swap_spread_limits_trio"
+    }
+    fn rule(&self) -> &'static str {
+        "three-asset stableswap pool (native/cw20 kinds, amp 1..10^4, reserves up to 2^70 with imbalance up to 2^5 per asset) with liquidity; sequences of swaps in all six directions with generated max_spread settings (None, 0, tight, 1%, 50%, >50%) and belief prices around the ratio of the two reserves. Same rule as for the pairs: a swap that succeeds satisfies the realised bound computed from its own reported amounts; a swap that is rejected although the same swap without a limit succeeds strictly inside the bound is a violation. Non-trivial: both an accepted and a rejected limited swap occurred."
+    }
+    fn strategy(&self, tier: Tier) -> BoxedStrategy<LiveCase3> {
+        let n = tier.pick(16usize, 40usize);
+        let sw = (
+            0u8..4,
+            0u8..3,
+            1u8..3,
+            prop_oneof![4 => (1u16..30000).prop_map(Amt::OfReserve), 1 => gen::amount(1, 1u128 << 70).prop_map(|a| Amt::Abs(Uint128::new(a)))],
+            spread_setting(),
+            proptest::option::weighted(0.4, 16384u16..49152),
+        )
+            .prop_map(|(user, from, d, amt, ms, belief_k)| LiveSwap3 { user, from, to: (from + d) % 3, amt, max_spread_atomics: ms.map(Uint128::new), belief_k });
+        (
+            any::<[bool; 3]>(),
+            prop_oneof![Just(1u64), Just(100), 1u64..10_000],
+            gen::small_fee_triple(),
+            gen::log_uniform(10_000_000, 1u128 << 70),
+            [0u32..6, 0u32..6],
+            prop::collection::vec(sw, 2..n),
+        )
+            .prop_map(|(cw20, amp, f, base, sh, swaps)| LiveCase3 {
+                cw20,
+                amp,
+                fees: [Uint128::new(f[0]), Uint128::new(f[1]), Uint128::new(f[2])],
+                init: [Uint128::new(base), Uint128::new((base >> sh[0]).max(10_000_000)), Uint128::new((base >> sh[1]).max(10_000_000))],
+                swaps,
+            })
+            .boxed()
+    }
+    fn cases(&self, tier: Tier) -> u32 {
+        tier.pick(12_000, 600_000)
+    }
+    fn min_nontrivial(&self) -> f64 {
+        0.05
+    }
+    fn test(&self, c: &LiveCase3, rec: &Rec) -> TResult {
+        use crate::pools::{TrioCfg, TrioWorld};
+        let mut tw = TrioWorld::build(&TrioCfg { cw20: c.cw20, decimals: [6, 6, 6], fees: c.fees, amp: c.amp }).map_err(|e| Fail::new(format!("world build failed: {e}")))?;
+        let u0 = tw.user(0);
+        if tw.provide(&u0, [c.init[0].u128(), c.init[1].u128(), c.init[2].u128()], None, None).is_err() {
+            return Ok(());
+        }
+        let (mut acc, mut rej) = (0, 0);
+        for (step, s) in c.swaps.iter().enumerate() {
+            let v = tw.view().map_err(|e| Fail::new(format!("Pool query failed: {e}")))?;
+            let usr = tw.user(s.user);
+            let (oi, ai) = ((s.from % 3) as usize, (s.to % 3) as usize);
+            if oi == ai {
+                continue;
+            }
+            let amount = resolve(&s.amt, v.reserves[oi], tw.w.bal(&tw.infos[oi], &usr)).max(1);
+            let ms = s.max_spread_atomics.map(|m| m.u128());
+            let eff = effective_spread(ms);
+            let belief = s.belief_k.and_then(|k| {
+                if v.reserves[ai] == 0 {
+                    return None;
+                }
+                Decimal::checked_from_ratio(v.reserves[oi], v.reserves[ai])
+                    .ok()
+                    .and_then(|p| p.checked_mul(Decimal::from_ratio(k as u128, 32768u128)).ok())
+            });
+            if let Some(b) = belief {
+                if b.is_zero() {
+                    continue;
+                }
+            }
+            let r = tw.swap(&usr, oi, ai, amount, belief, ms.map(|m| Decimal::new(Uint128::new(m))), None);
+            match r {
+                Ok(resp) => {
+                    acc += 1;
+                    rec.class("limited_swap_accepted");
+                    let at = swap_attrs(&resp, &tw.trio).ok_or_else(|| Fail::new("swap response lacks attributes"))?;
+                    let gross = at.return_amount + at.swap_fee + at.protocol_fee + at.burn_fee;
+                    match belief {
+                        None => {
+                            if gross + at.spread_amount > 0 {
+                                ensure!(
+                                    verdict_plain(gross, at.spread_amount, eff) != Verdict::MustReject,
+                                    "step {step}: trio swap {oi}->{ai} succeeded with max_spread {:?} (effective {eff}) but spread {} / (gross {gross} + spread) exceeds it",
+                                    ms,
+                                    at.spread_amount
+                                );
+                            }
+                        }
+                        Some(b) => {
+                            let pa = b.atomics().u128();
+                            let e = u(amount) * u(E18) / u(pa);
+                            if e.bits() <= 127 {
+                                ensure!(
+                                    verdict_belief(amount, gross, pa, eff) != Verdict::MustReject,
+                                    "step {step}: trio swap {oi}->{ai} of {amount} succeeded with belief price {b} and max_spread {:?} (effective {eff}) but the gross return {gross} is below (offer/p)(1-s)",
+                                    ms
+                                );
+                            }
+                        }
+                    }
+                }
+                Err(_) => {
+                    let r2 = tw.swap(&usr, oi, ai, amount, None, Some(dec(HALF)), None);
+                    if let Ok(resp) = r2 {
+                        let at = swap_attrs(&resp, &tw.trio).ok_or_else(|| Fail::new("swap response lacks attributes"))?;
+                        let gross = at.return_amount + at.swap_fee + at.protocol_fee + at.burn_fee;
+                        let inside = match belief {
+                            None => gross + at.spread_amount > 0 && verdict_plain(gross, at.spread_amount, eff) == Verdict::MustAccept,
+                            Some(b) => {
+                                let pa = b.atomics().u128();
+                                let e = u(amount) * u(E18) / u(pa);
+                                e.bits() <= 127 && (u(E18) * u(E18) / u(pa)).bits() <= 127 && verdict_belief(amount, gross, pa, eff) == Verdict::MustAccept
+                            }
+                        };
+                        ensure!(
+                            !inside,
+                            "step {step}: trio swap {oi}->{ai} of {amount} (gross {gross}, spread {}) was rejected with belief {belief:?} / max_spread {:?} (effective {eff}) although it is within the limit",
+                            at.spread_amount,
+                            ms
+                        );
+                        rej += 1;
+                        rec.class("limited_swap_rejected_beyond_limit");
+                    } else {
+                        rec.class("swap_rejected_for_other_reasons");
+                    }
+                }
+            }
+        }
+        if acc >= 1 && rej >= 1 {
+            rec.nontrivial(hash_of(c));
+            rec.sample(c);
+        }
+        Ok(())
+    }
+}
+
+// ---------------------------------------------------------------------------------------------
 // router minimum receive
 // ---------------------------------------------------------------------------------------------
 
@@ -888,6 +1052,7 @@ pub fn property() -> Property {
             Box::new(DepositSlippagePure),
             Box::new(LiveSpread),
             Box::new(LiveDepositSlippage),
+            Box::new(LiveSpreadTrio),
             Box::new(RouterMinimumReceive),
         ],
         assumptions: vec![
